@@ -6,38 +6,40 @@ Local Open Scope Z_scope.
 
 (* SERVER.  For EVERY sequence of segments a peer sends on a connection, what the server writes is a sequence of
    headers; blob bytes appear only directly after a header that names exactly (hash, length) of a blob the
-   server holds verified, and are exactly that blob; availability lists name held blobs only. *)
+   server holds verified, and are exactly that blob; availability lists name blobs of the completed index only
+   (the download is gated on the blob being verified, not on that index). *)
 Theorem C10_server_serves_only_verified :
-  forall (req_loads : bytes -> rres) (store : bytes -> option bytes) (frags : list bytes),
-    wire_ok store (snd (srv_run req_loads store fresh_server frags)).
+  forall (req_loads : bytes -> rres) (store : bytes -> option bytes) (completed : bytes -> bool) (frags : list bytes),
+    wire_ok store completed (snd (srv_run req_loads store completed fresh_server frags)).
 Proof. exact srv_run_wire_ok. Qed.
 Print Assumptions C10_server_serves_only_verified.
 
 (* 1200 or more buffered request bytes => the connection is closed, nothing is handled or sent. *)
 Theorem C10_server_request_cap :
-  forall (req_loads : bytes -> rres) (store : bytes -> option bytes) (s : server) (data : bytes),
+  forall (req_loads : bytes -> rres) (store : bytes -> option bytes) (completed : bytes -> bool) (s : server) (data : bytes),
     zlen (s_buf s) + zlen data >= MAX_REQUEST_SIZE ->
-    srv_data req_loads store s data = (mkS (s_buf s) false, [SClose]).
+    srv_data req_loads store completed s data = (mkS (s_buf s) false, [SClose]).
 Proof. exact srv_cap. Qed.
 Print Assumptions C10_server_request_cap.
 
 (* a segment that completes a '}' but is not a request (bad JSON, an exception in deserialize, no request key) closes *)
 Theorem C10_server_bad_json_closes :
-  forall (req_loads : bytes -> rres) (store : bytes -> option bytes) (s : server) (data t : bytes),
+  forall (req_loads : bytes -> rres) (store : bytes -> option bytes) (completed : bytes -> bool) (s : server) (data t : bytes),
     zlen (s_buf s) + zlen data < MAX_REQUEST_SIZE -> data <> [] -> after_last_brace data = Some t ->
     (req_loads (s_buf s ++ data) = RBadJson \/ req_loads (s_buf s ++ data) = RRaise \/ req_loads (s_buf s ++ data) = REmpty) ->
-    exists s', srv_data req_loads store s data = (s', [SClose]) /\ s_open s' = false.
+    exists s', srv_data req_loads store completed s data = (s', [SClose]) /\ s_open s' = false.
 Proof. exact srv_bad_json. Qed.
 Print Assumptions C10_server_bad_json_closes.
 
 (* an honest request (its only '}' is its last byte, below the cap) is handled exactly once however it is cut *)
 Theorem C10_server_fragmentation_irrelevant :
-  forall (req_loads : bytes -> rres) (store : bytes -> option bytes) (body : bytes) (q : request_msg) (frags : list bytes),
+  forall (req_loads : bytes -> rres) (store : bytes -> option bytes) (completed : bytes -> bool) (body : bytes) (q : request_msg)
+         (frags : list bytes),
     no_brace body -> req_loads (body ++ [rbrace]) = RReq q -> zlen (body ++ [rbrace]) < MAX_REQUEST_SIZE ->
     concat frags = body ++ [rbrace] -> (forall f, In f frags -> f <> []) ->
-    srv_run req_loads store fresh_server frags =
-      (mkS [] (negb (existsb (fun o => match o with SClose => true | _ => false end) (handle_request store q))),
-       handle_request store q).
+    srv_run req_loads store completed fresh_server frags =
+      (mkS [] (negb (existsb (fun o => match o with SClose => true | _ => false end) (handle_request store completed q))),
+       handle_request store completed q).
 Proof. exact srv_fragmentation. Qed.
 Print Assumptions C10_server_fragmentation_irrelevant.
 
@@ -295,6 +297,31 @@ Theorem C10_old_condition_refuted :
 Proof. exact old_condition_refuted. Qed.
 Print Assumptions C10_old_condition_refuted.
 
+(* ONE DOWNLOAD PER PROTOCOL.  Why BlobDownloader must not hand a busy keep-alive connection to a second download:
+   download_blob overwrites blob / writer / future, and the honest header answering the FIRST request is then
+   "a blob we didn't request": dropped, never delivered, nothing written. *)
+Theorem C10_second_download_on_busy_protocol_refuted :
+  forall (H : bytes -> bytes) (json_loads : bytes -> jres) (c : client) (h1 h2 : bytes) (known : option Z) (data : bytes)
+         (r : response) (n : nat) (l : lenv),
+    c_open c = true -> h1 <> h2 ->
+    parse_prefix json_loads (c_buf c ++ data) = PResp r n -> r_blob r = BrIncoming (Some h1) l ->
+    data_received H json_loads (start_download h2 known c) data = (set_buf [] (start_download h2 known c), false).
+Proof. exact second_download_on_busy_protocol_drops_first. Qed.
+Print Assumptions C10_second_download_on_busy_protocol_refuted.
+
+(* MEMORY-ONLY NODE (save_blobs = False): serving its copy of a blob consumes it; asked again for the same hash it
+   announces nothing and sends no blob bytes. *)
+Theorem C10_memory_only_serves_once :
+  forall (store : bytes -> option bytes) (completed : bytes -> bool) (q : request_msg) (h : bytes),
+    q_blob q = Some (BqHash h) ->
+    let store' := snd (mem_handle_request store completed q) in
+    store' h = None /\
+    forall q', q_blob q' = Some (BqHash h) ->
+      forall o, In o (handle_request store' completed q') ->
+        match o with SHeader hd => h_incoming hd = None | SBlob _ => False | _ => True end.
+Proof. exact memory_only_serves_once. Qed.
+Print Assumptions C10_memory_only_serves_once.
+
 (* ------------------------------------------------------------------ non-vacuity *)
 (* all hypotheses about an honest header and a started download are satisfiable together (a table-driven json_loads,
    the literal F7 witness {"lbrycrd_address": "x"} as the blob): the old client fails on it, the repaired one completes *)
@@ -312,6 +339,6 @@ Example C10_ex_timeout :
   c_phase (run toy_H toy_json toy_c0 [EvAdvance 3]) = PhDone (DlClosed 0).
 Proof. vm_compute. reflexivity. Qed.
 Example C10_ex_server_cap :
-  srv_data (fun _ => RBadJson) (fun _ => None) (mkS (repeat rbrace 1000) true) (repeat rbrace 200)
+  srv_data (fun _ => RBadJson) (fun _ => None) (fun _ => false) (mkS (repeat rbrace 1000) true) (repeat rbrace 200)
   = (mkS (repeat rbrace 1000) false, [SClose]).
 Proof. vm_compute. reflexivity. Qed.
